@@ -2,7 +2,7 @@
 the value graph as a multiset of edges between object identities. Used by C05, C14, C15."""
 from collections import Counter
 
-from . import env, snap
+from . import env, snap, spec as S
 
 env.import_efootprint()
 
@@ -23,7 +23,7 @@ def values_of(obj):
             continue
         if isinstance(v, ExplainableObjectDict):
             for k, x in v.items():
-                yield a, getattr(k, "name", str(k)), x
+                yield a, (S.key_of(k) if hasattr(k, "name") else str(k)), x
         elif isinstance(v, ExplainableObject):
             yield a, None, v
 
@@ -43,11 +43,11 @@ def identity_snapshot(reach):
                 keep.append(v)
             elif isinstance(v, ListLinkedToModelingObj):
                 held[(name, a)] = id(v)
-                links[(name, a)] = [(x.name, id(x)) for x in v]
+                links[(name, a)] = [(S.key_of(x), id(x)) for x in v]
                 keep.append(v)
                 keep.extend(list(v))
             elif isinstance(v, ContextualModelingObjectAttribute):
-                links[(name, a)] = (v.name, id(v))
+                links[(name, a)] = (S.key_of(v), id(v))
                 keep.append(v)
         for a, k, x in values_of(obj):
             held[(name, a, k) if k is not None else (name, a)] = id(x) if k is None else id(x)
@@ -60,10 +60,10 @@ def identity_snapshot(reach):
             for ch in x.direct_children_with_id:
                 pending.append(("child", x, ch))
                 keep.append(ch)
-        reverse[name] = sorted(c.name for c in obj.modeling_obj_containers)
+        reverse[name] = sorted(S.key_of(c) for c in obj.modeling_obj_containers)
         # every registered back link that is attached (a multiset: hidden duplicates are damage too)
         reverse[(name, "#attached back links")] = sorted(
-            (w.modeling_obj_container.name, str(w.attr_name_in_mod_obj_container))
+            (S.key_of(w.modeling_obj_container), str(w.attr_name_in_mod_obj_container))
             for w in obj.contextual_modeling_obj_containers if w.modeling_obj_container is not None)
     # The graph users inspect is keyed by value ids ('<attr>-in-<object id>'; all entries of a dict share one): edges are
     # compared at that level, together with whether both ends are objects currently held by the model.
